@@ -21,6 +21,7 @@ IsAssignOp(it) == it.s = "L" /\ it.x \in AssignOpLits
 IsSpacedOp(it) == IsBinOp(it) \/ IsAssignOp(it)
 IsComma(it) == IsLit(it, ", ")
 Has(l, P(_)) == FirstIdx(l.items, P) # 0
+IsOperandItem(it) == it.s \in {"v", "p", "num"}
 
 BodyKinds == {"stmt", "ctrl"}
 CodeKinds == {"stmt", "ctrl", "decl", "funchead", "global", "proto", "include", "define", "field"}
@@ -30,7 +31,7 @@ LocalOps == {
   "trail_space", "trail_tab", "space_indent", "less_tab", "more_tab", "double_space", "tab_before_op",
   "no_space_before_op", "no_space_after_op", "no_space_after_comma", "space_before_comma",
   "kw_no_space", "kw_semicolon", "space_after_lpar", "space_before_rpar", "return_no_paren", "two_instr",
-  "ternary", "mult_assign", "assign_in_control", "for_loop", "goto", "label",
+  "ternary", "ternary_first_operand", "ternary_last_operand", "mult_assign", "assign_in_control", "for_loop", "goto", "label",
   "mult_decl", "decl_assign", "decl_space_not_tab", "decl_extra_tab", "star_space", "vla", "capital_var",
   "no_void", "space_before_func", "two_tabs_func", "capital_func", "paren_space_func",
   "define_expr", "macro_func", "include_c", "include_nospace", "space_before_hash", "lower_macro",
@@ -54,7 +55,7 @@ Code(op) ==
     [] op = "space_before_rpar" -> {"NO_SPC_BFR_PAR"}
     [] op = "return_no_paren" -> {"RETURN_PARENTHESIS"}
     [] op = "two_instr" -> {"TOO_MANY_INSTR"}
-    [] op = "ternary" -> {"TERNARY_FBIDDEN"}
+    [] op \in {"ternary", "ternary_first_operand", "ternary_last_operand"} -> {"TERNARY_FBIDDEN"}
     [] op = "mult_assign" -> {"MULT_ASSIGN_LINE"}
     [] op = "assign_in_control" -> {"ASSIGN_IN_CONTROL"}
     [] op = "for_loop" -> {"FORBIDDEN_CS"}
@@ -112,6 +113,9 @@ App(op, l, i) ==
                                  /\ ~IsLit(l.items[FirstIdx(l.items, LAMBDA it : IsLit(it, "return (")) + 1], "(")
     [] op = "two_instr" -> l.k = "stmt" /\ l.st = "IsAssignation"
     [] op \in {"ternary", "mult_assign"} -> l.k = "stmt" /\ Has(l, LAMBDA it : IsLit(it, " = "))
+    (* the forbidden construct in EVERY statement context: an operand of a call statement, a return, a condition, *)
+    (* an index ... becomes a conditional expression                                                            *)
+    [] op \in {"ternary_first_operand", "ternary_last_operand"} -> l.k \in BodyKinds /\ Has(l, IsOperandItem)
     [] op \in {"assign_in_control", "for_loop"} -> l.k = "ctrl" /\ Has(l, LAMBDA it : IsLit(it, "while ("))
     [] op \in {"goto", "label"} -> l.k = "stmt" /\ l.st = "IsFunctionCall" /\ LeadTabs(l.items) = 1
     [] op \in {"mult_decl", "decl_assign", "decl_space_not_tab", "star_space", "vla", "capital_var"} -> l.k = "decl"
@@ -158,6 +162,8 @@ Rw(op, l) ==
                                  Repl(Repl(its, Len(its), <<L(";", 1)>>), jr, <<L("return ", 7)>>)
     [] op = "two_instr" -> its \o <<L(" ", 1), V1, L(" = ", 3), N1, L(";", 1)>>
     [] op = "ternary" -> SubSeq(its, 1, je) \o <<V1, L(" ? ", 3), V3, L(" : ", 3), N1, L(";", 1)>>
+    [] op = "ternary_first_operand" -> Repl(its, FirstIdx(its, IsOperandItem), <<V1, L(" ? ", 3), V3, L(" : ", 3), N1>>)
+    [] op = "ternary_last_operand" -> Repl(its, LastIdx(its, IsOperandItem), <<V1, L(" ? ", 3), V3, L(" : ", 3), N1>>)
     [] op = "mult_assign" -> SubSeq(its, 1, je) \o <<V5, L(" = ", 3)>> \o SubSeq(its, je + 1, Len(its))
     [] op = "assign_in_control" -> Tabs(t) \o <<L("while (", 7), V1, L(" = ", 3), N1, L(")", 1)>>
     [] op = "for_loop" -> Tabs(t) \o <<L("for (", 5), V1, L(" = ", 3), N1, L("; ", 2), V1, L(" < ", 3), N2, L("; ", 2), V1, L("++", 2), L(")", 1)>>
